@@ -192,11 +192,18 @@ func (c JSONArrayCodec) Read(data []byte, ptr unsafe.Pointer, wt plenccore.WireT
 	}
 	offset := n
 
+	// The array holds exactly the entries in the data. Re-use the target's
+	// array if it is big enough, but don't let old values show through
 	a := *(*[]any)(ptr)
-	if a == nil {
+	if a == nil || uint64(cap(a)) < count {
 		a = make([]any, count)
-		*(*[]any)(ptr) = a
+	} else {
+		a = a[:count]
+		for i := range a {
+			a[i] = nil
+		}
 	}
+	*(*[]any)(ptr) = a
 
 	for i := range a {
 		l, n := plenccore.ReadVarUint(data[offset:])
